@@ -11,6 +11,9 @@ pub enum Alphabet {
     Small,    // {-3..3}
     Halves,   // k/2, |k| <= 4
     Quarters, // k/4, |k| <= 8
+    /// "realistic" weights: k/1024 with |k| <= 8192 (24 significant bits); products round in f64,
+    /// so runs with this alphabet use real-vs-real references instead of the exact model operations
+    Float,
 }
 
 impl Alphabet {
@@ -20,6 +23,7 @@ impl Alphabet {
             Alphabet::Small => rng.range(-3, 3) as f64,
             Alphabet::Halves => rng.range(-4, 4) as f64 / 2.0,
             Alphabet::Quarters => rng.range(-8, 8) as f64 / 4.0,
+            Alphabet::Float => rng.range(-8192, 8192) as f64 / 1024.0,
         }
     }
     pub fn name(&self) -> &'static str {
@@ -28,6 +32,7 @@ impl Alphabet {
             Alphabet::Small => "small_int",
             Alphabet::Halves => "halves",
             Alphabet::Quarters => "quarters",
+            Alphabet::Float => "float24",
         }
     }
 }
@@ -53,6 +58,8 @@ pub struct Knobs {
     /// per-mille of steps (beyond the pool) that are whole-pipeline calls
     pub pipeline_pm: usize,
     pub node_cap: usize,
+    /// float regime (see Alphabet::Float): also scales whole predicate rows by 1e3 / 1e6 now and then
+    pub float_regime: bool,
 }
 
 pub fn gen_knobs(rng: &mut Prng, focus: &str) -> Knobs {
@@ -62,7 +69,13 @@ pub fn gen_knobs(rng: &mut Prng, focus: &str) -> Knobs {
 /// `deep` (thorough tier, every other run): larger dimension, longer histories, bigger trees.
 pub fn gen_knobs_depth(rng: &mut Prng, focus: &str, deep: bool) -> Knobs {
     let in_dim = if deep { *rng.pick(&[2usize, 3, 3, 4, 4]) } else { *rng.pick(&[1usize, 2, 2, 2, 3, 3]) };
-    let alphabet = *rng.pick(&[Alphabet::Unit, Alphabet::Small, Alphabet::Small, Alphabet::Halves, Alphabet::Quarters]);
+    let float_regime = rng.chance(3, 20);
+    let alphabet = if float_regime {
+        let _ = rng.below(5);
+        Alphabet::Float
+    } else {
+        *rng.pick(&[Alphabet::Unit, Alphabet::Small, Alphabet::Small, Alphabet::Halves, Alphabet::Quarters])
+    };
     // base weights per focus, then each scaled by 0..3 so that some op kinds vanish in a run (swarm)
     let base: [usize; N_OPS] = match focus {
         // apply, comp_u, comp_p, elim, reduce, bin, neg, scalar, clone, slice, remove_axes
@@ -90,6 +103,7 @@ pub fn gen_knobs_depth(rng: &mut Prng, focus: &str, deep: bool) -> Knobs {
         sparse_pm: *rng.pick(&[0, 300, 600]),
         pipeline_pm: *rng.pick(&[0, 0, 100, 300]),
         node_cap: if deep { *rng.pick(&[300, 600, 900]) } else { *rng.pick(&[60, 150, 300]) },
+        float_regime,
     }
 }
 
@@ -131,7 +145,12 @@ pub fn gen_pred(rng: &mut Prng, k: &Knobs, indim: usize, earlier: &[(Vec<f64>, f
             }
         }
     };
-    (a, k.alphabet.draw(rng))
+    let b = k.alphabet.draw(rng);
+    if k.float_regime && rng.chance(1, 8) {
+        let sc = *rng.pick(&[1e3, 1e3, 1e6]);
+        return (a.iter().map(|v| v * sc).collect(), b * sc);
+    }
+    (a, b)
 }
 
 fn pred_lit(indim: usize, p: &(Vec<f64>, f64)) -> AffLit {
